@@ -87,6 +87,11 @@ pub struct SubstState {
     pub sform: SForm,
     pub use_: Option<Use>,
     pub rule: Option<usize>,
+    /// a second, simultaneous rule `p::a::N -> ::t::NN<B>`: the helper type N (an argument of most
+    /// uses) is substituted too, by a target that contains a literal generic spelled like a source
+    /// parameter of the first rule
+    #[serde(default)]
+    pub second: bool,
 }
 
 const D_NN: usize = 0; // N {v: u32}
@@ -185,6 +190,9 @@ impl SubstState {
         if let Some(r) = self.rule {
             let (g, t) = rule_forms()[r];
             s.substitutes.push((format!("{}{}", self.source_path(), g), t.to_string()));
+        }
+        if self.second {
+            s.substitutes.push(("p::a::N".into(), "::t::NN<B>".into()));
         }
         s
     }
@@ -340,6 +348,8 @@ pub fn check_state(st: &SubstState, ctx: &mut Ctx) {
     let sub = |path: &[String], args: &[String]| -> Option<String> {
         if path == source_path.as_slice() {
             Some(reference_substitution(src_generics, target, args))
+        } else if st.second && path == ["p".to_string(), "a".to_string(), "N".to_string()] {
+            Some(reference_substitution("", "::t::NN<B>", args))
         } else {
             // the bit-order markers of the faithful profile
             None
@@ -391,6 +401,9 @@ pub fn check_state(st: &SubstState, ctx: &mut Ctx) {
         if di == D_S && st.sform != SForm::BTreeMap {
             continue;
         }
+        if di == D_NN && st.second {
+            continue;
+        }
         let mut p = vec![spec.root.clone()];
         p.extend(def.path());
         let Some(item) = em.items.get(&p) else { continue };
@@ -432,6 +445,7 @@ impl Driver for DSubst {
                 sform: *f,
                 use_: None,
                 rule: None,
+                second: false,
             })
             .collect()
     }
@@ -450,6 +464,11 @@ impl Driver for DSubst {
                     ..s.clone()
                 })
                 .collect()
+        } else if !s.second {
+            vec![SubstState {
+                second: true,
+                ..s.clone()
+            }]
         } else {
             vec![]
         }
@@ -465,7 +484,7 @@ impl Driver for DSubst {
 pub fn run(tier: &str, seed: u64) -> i32 {
     let mut report = Report::new("C07", tier, seed, "model_checking");
     let budget = Budget {
-        max_depth: 2,
+        max_depth: 3,
         wall: Duration::from_secs(if tier == "thorough" { 600 } else { 150 }),
         max_states: 1_000_000,
     };
